@@ -281,6 +281,13 @@ class Builder:
         if op == "join":
             jopt = prog[4] if len(prog) > 4 and prog[4] else {}
             p = self.plib(prog[3]) if prog[3] is not None else None
+            if jopt.get("minmax") is not None:
+                # explicit, already resolved equality columns (possibly ones an operand lacks)
+                cc = frozenset(T(x) for x in jopt["minmax"])
+                j = R.Join(p if p is not None else R.Predicate.literal(True), min_columns=cc, max_columns=cc)
+                if jopt.get("partial"):
+                    return j.partial(args[1], is_lhs=bool(jopt.get("is_lhs"))).apply(args[0])
+                return j.apply(args[0], args[1])
             if jopt.get("maxc") is not None:
                 # the other public route: an explicit Join operation with max_columns (here always a
                 # superset of the shared key columns, so the meaning is that of Relation.join)
